@@ -254,6 +254,15 @@ case("F60 nanargmax of a 2-D in-memory array with a NaN fill", lambda: groupby_r
 # F61
 case("F61 chunked nancumsum with a missing label", lambda: groupby_scan(da.from_array(np.arange(5, dtype=np.float32), chunks=1), np.array([2.0, 1.0, np.nan, 0.0, 0.0]), func="nancumsum").compute(), lambda r: False, refusal_ok=True)
 
+# F62
+def f62():
+    by3 = np.array([[[0, 0], [1, 1]], [[2, 2], [2, 2]]])
+    r, g = groupby_reduce(da.from_array(np.ones((2, 2, 2)), chunks=(1, 2, 2)), da.from_array(by3, chunks=(1, 2, 2)), func="sum", axis=(1, 2), fill_value=0)
+    return r.compute().tolist()
+
+
+case("F62 unknown labels, two of three label axes reduced", f62, lambda r: r == [[2.0, 2.0, 0.0], [0.0, 0.0, 4.0]], refusal_ok=True)
+
 bad = 0
 for name, verdict in results:
     print(f"{name:55s} {verdict}")
